@@ -2,6 +2,7 @@ package decoder
 
 import (
 	"fmt"
+	"math/bits"
 	"reflect"
 	"unsafe"
 
@@ -52,7 +53,12 @@ func (d *uintDecoder) parseUint(b []byte) (uint64, error) {
 	for i := 0; i < maxDigit; i++ {
 		c := uint64(b[i]) - 48
 		digitValue := pow10u64[maxDigit-i-1]
-		sum += c * digitValue
+		hi, lo := bits.Mul64(c, digitValue)
+		next, carry := bits.Add64(sum, lo, 0)
+		if hi != 0 || carry != 0 {
+			return 0, fmt.Errorf("number out of range")
+		}
+		sum = next
 	}
 	return sum, nil
 }
